@@ -195,19 +195,19 @@ func Main(kind string) {
 	rn := &runner{o: o, pool: pool, kind: kind}
 
 	if f.Replay != "" {
-		fs := strings.Split(f.Replay, "\t")
-		if len(fs) < 7 {
-			fs = strings.Fields(f.Replay) // oracle.txt stores the case with blanks
-		}
-		if len(fs) < 7 {
+		// case lines reach us tab-separated (cases.txt) or blank-separated (oracle.txt): the
+		// fields we need are the last ones and contain no blanks
+		fs := strings.Fields(f.Replay)
+		if len(fs) < 8 {
 			fmt.Fprintln(os.Stderr, "replay: case line has no source fields")
 			os.Exit(2)
 		}
-		text, _ := vh.UnHex(fs[5])
-		input, _ := vh.UnHex(fs[6])
-		req := Req{Text: string(text), Input: string(input), Procs: fs[4]}
+		k := len(fs)
+		text, _ := vh.UnHex(fs[k-2])
+		input, _ := vh.UnHex(fs[k-1])
+		req := Req{Text: string(text), Input: string(input), Procs: fs[k-3]}
 		if c := Compile(req.Text, nil); strings.HasPrefix(c.ChkOut, "rec:") {
-			req.GenSx = fs[1]
+			req.GenSx = strings.Join(fs[1:k-5], " ")
 		}
 		rn.one(req)
 		return
